@@ -124,9 +124,9 @@ func c05Check(cs *core.Case, p rtcp.Packet, where string) {
 func runC05(c *core.Ctx) {
 	o := gen.Opts{AllowKF: true, UnalignedSRExt: true}
 	c.Section("values", c.N(1500000, 80000000), func(cs *core.Case) {
-		k := gen.Kind(cs.Idx % uint64(gen.NumKinds))
-		p := gen.Packet(cs.R, k, o)
-		c05Check(cs, p, "value")
+		// the value stream of C02 / C03: an eighth of the values have been used and then edited in
+		// place (a size remembered from the earlier use is stale), a quarter have tied fields
+		c05Check(cs, valueOf(cs, o), "value")
 	})
 	// values whose encoding has 64 KiB or more (where 16-bit byte arithmetic wraps)
 	c.Section("big-values", c.N(400, 8000), func(cs *core.Case) {
